@@ -147,8 +147,8 @@ func dhPair(c *mon.Case, r *mon.Run, an, bn string, a, b []byte) {
 			r.Count("pub_sent_p_minus_X", 1)
 			r.Distinct("coin_to_form", fmt.Sprintf("low-bit-%d->p-X", raw[len(raw)-1]&1))
 		default:
+			// (the agreement checks below still run: this alone says nothing about them)
 			c.Violation("uniformdh/public-key-not-X-or-p-minus-X", fmt.Sprintf("public key for key class %s is neither g^x mod p nor p - g^x mod p (x = private bytes with the low bit cleared)", who), fmt.Sprintf("%x", raw))
-			return nil, nil, nil, false
 		}
 		return k, pub, rk, true
 	}
@@ -540,7 +540,10 @@ func runConn(c *mon.Case, r *mon.Run, p params) {
 			}
 		}
 	}
-	reader := func(conn rw, st mon.Stream, ds *dirStats, bufSeed uint64) {
+	reader := func(conn rw, own *memwire.Conn, st mon.Stream, ds *dirStats, bufSeed uint64) {
+		// an application closes a connection whose Read failed; without that a
+		// peer writing into a full window would stay blocked for ever
+		defer own.Close()
 		brng := mon.NewRand(bufSeed)
 		var off int64
 		for {
@@ -717,8 +720,8 @@ func runConn(c *mon.Case, r *mon.Run, p params) {
 	}
 
 	wg.Add(2)
-	c.Go(wg.Done, func() { reader(sc, cStream, &up, p.seed^0x71) })
-	c.Go(wg.Done, func() { reader(cc, sStream, &down, p.seed^0x72) })
+	c.Go(wg.Done, func() { reader(sc, sw, cStream, &up, p.seed^0x71) })
+	c.Go(wg.Done, func() { reader(cc, cw, sStream, &down, p.seed^0x72) })
 
 	good := true
 	switch p.scenario {
@@ -1095,7 +1098,7 @@ func TestCheck(t *testing.T) {
 	r := mon.Start(t, "C13")
 	defer r.Finish()
 	r.Note("rule", "Part A: uniformdh.GenerateKey fed scripted 192-byte readers (PRNG even/odd, 0, 1, 2, 3, all-ones, p, p+-1, p+2, q, q+1, top bit; the last bit is the X / p-X coin) in all class pairs plus PRNG pairs; for each pair both public keys must be 192 bytes and equal g^x or p-g^x, and for all four combinations of the form each side could have sent (the sent one and p minus it, through PublicKey.SetBytes) both Handshake results must be 192 bytes, equal, and equal g^(xy) mod p computed with math/big. Degenerate peer values (0, 1, 2, p-1, p, p+1, all-ones) are only recorded. "+
-		"Part B: obfs3 connections over a buffered in-memory wire in synctest bubbles, pairings real<->real, reference client<->real server, real client<->reference server; one reader and one writer goroutine per endpoint under the race detector, PRF stream checked online, delivered==written judged at quiescence (end, after every lockstep step, after a burst in which handshake, padding, magic and payload are queued before the reader runs). Families: grid pairing x scenario x chunk policy {all,1,7,31,32,33,192,193,PRNG,4 KiB window after the handshake}; reference padding sweep (every value 0..4097 in phase 1 and phase 2 in the thorough tier, edges + 64 PRNG values in quick) for both roles; magic straddling a read boundary at each offset 0..32 with payload coalesced or separate; real side steered through crypto/rand.Reader and csrand.Reader to extreme private keys and to minimum/maximum padding; hostile reference peers (no magic within 8226 bytes, magic behind more than 8194 bytes, with chunkings that leave the decision to the position test) and controls at exactly 8194. The reference locates the real side's magic in the transcript and bounds its padding per phase and in total. Non-trivial = handshake completed and payload flowed (or the hostile case reached its verdict); distinct = distinct parameter tuple.")
+		"Part B: obfs3 connections over a buffered in-memory wire in synctest bubbles, pairings real<->real, reference client<->real server, real client<->reference server; one reader and one writer goroutine per endpoint under the race detector, PRF stream checked online, delivered==written judged at quiescence (end, after every lockstep step, after a burst in which handshake, padding, magic and payload are queued before the reader runs). Families: grid pairing x scenario x chunk policy {all,1,7,31,32,33,192,193,PRNG,4 KiB window after the handshake}; reference padding sweep (every value 0..4097 in phase 1 and phase 2 in the thorough tier, edges 0, 1, 4096, 4097 + 96 PRNG values in quick) for both roles; magic straddling a read boundary at each offset 0..32 with payload coalesced or separate; real side steered through crypto/rand.Reader and csrand.Reader to extreme private keys and to minimum/maximum padding; hostile reference peers (no magic within 8226 bytes, magic behind more than 8194 bytes, with chunkings that leave the decision to the position test) and controls at exactly 8194. The reference locates the real side's magic in the transcript and bounds its padding per phase and in total. Non-trivial = handshake completed and payload flowed (or the hostile case reached its verdict); distinct = distinct parameter tuple.")
 	r.Note("exhaustive_part", "thorough tier: every reference padding length 0..4097 in phase 1 and in phase 2, in both roles; every straddle offset 0..32 x coalesced/separate x role; all pairs of the 16 private-key classes; all hostile variants x role")
 
 	// ---- Part A
@@ -1109,7 +1112,7 @@ func TestCheck(t *testing.T) {
 			}
 		})
 	}
-	nPrngBatches, perBatch := 16, r.Pick(10, 150)
+	nPrngBatches, perBatch := 16, r.Pick(10, 300)
 	for b := 0; b < nPrngBatches; b++ {
 		b := b
 		r.Case(fmt.Sprintf("dh/prng/%02d", b), func(c *mon.Case) {
@@ -1124,7 +1127,7 @@ func TestCheck(t *testing.T) {
 	})
 
 	// ---- Part B: grid
-	nPer := r.Pick(2, 24)
+	nPer := r.Pick(3, 60)
 	for pairing := 0; pairing < nPairings; pairing++ {
 		for scen := 0; scen < nScenarios; scen++ {
 			for pi := range policies {
@@ -1153,7 +1156,7 @@ func TestCheck(t *testing.T) {
 	} else {
 		padVals = []int{0, 1, 4096, 4097}
 		prng := mon.NewRand(r.Sub("padvals"))
-		for len(padVals) < 68 {
+		for len(padVals) < 100 {
 			padVals = append(padVals, 2+prng.IntN(4094))
 		}
 	}
@@ -1191,7 +1194,7 @@ func TestCheck(t *testing.T) {
 	}
 
 	// ---- Part B: magic straddling a read boundary
-	padCombos := r.Pick(1, 10)
+	padCombos := r.Pick(1, 16)
 	for role := pairRefClient; role <= pairRefServer; role++ {
 		for _, coalesce := range []bool{false, true} {
 			role, coalesce := role, coalesce
@@ -1221,7 +1224,7 @@ func TestCheck(t *testing.T) {
 	}
 
 	// ---- Part B: real side steered (private key classes, padding extremes)
-	reps := r.Pick(1, 6)
+	reps := r.Pick(1, 8)
 	for role := pairRefClient; role <= pairRefServer; role++ {
 		for kc := range keyClasses {
 			role, kc := role, kc
